@@ -210,6 +210,24 @@ def run(ctx):
         chk.ob('U3', 'item-is-decimal-conversion[%s]' % fname, conv is not None, c.where(), fname,
                'the value compared with the uid is %s, not the decimal conversion of a list item' % render(item_expr),
                how=render(conv)[:50] if conv is not None else '')
+        # the item and the uid are compared as numbers of the same kind: a conversion narrowed through a signed 32-bit
+        # type ((pid_t) atol(..)) is only harmless when both sides are then 32-bit unsigned again (uid_t); kept in a wider
+        # type it is sign-extended, the uid is not, and uids from 2^31 up never match
+        narrowed = [n for n in (item_expr.walk() if item_expr is not None else []) if n.k == 'CStyleCastExpr' and
+                    (n.get('ct') or '').strip() in ('int', 'short', 'signed char')]
+        if narrowed:
+            decls14 = {x['id']: x for x in F.local_decls()}
+            sides = []
+            for x in c.ch:
+                dx = decl_of(x)
+                sides.append((decls14.get(dx['id'], {}).get('ct') or '').strip() if dx is not None else (strip(x).get('ct') or '').strip())
+            okt = all(t == 'unsigned int' for t in sides)
+            chk.ob('U3', 'same-width-comparison[%s]' % fname, okt, c.where(), fname,
+                   'the list item is narrowed through %s and then compared as %s with a uid held as %s: the item is '
+                   'sign-extended, the uid is not, so a listed uid of 2^31 or more is not recognised' % (
+                       render(narrowed[0])[:40], sides[0] if decl_of(c.ch[0]) is not None and decl_of(c.ch[0]).get('id') == (od or {}).get('id') else sides[-1],
+                       sides[-1] if sides else '?'),
+                   how='both sides are 32-bit unsigned (uid_t)', nontrivial=False)
         # no other comparison on the converted item
         extra = []
         item_ids = {od['id']} if od is not None else set()
